@@ -1,10 +1,10 @@
-\* exhaustive, all repairs on (1 key, 2 elements, T = 1, 2 batches, 2 clients x 2 ops, pin/append split): all invariants hold
+\* mutant LateSnapFetch (fetch_entry takes the snapshot after its scan), everything else repaired: TLC must report ReadYourWrites violated
 SPECIFICATION Spec
 CONSTANTS
   Keys = {k1}
   Elems = {1, 2}
   Clients = {c1, c2}
-  MaxBatches = 2
+  MaxBatches = 3
   MaxOps = 2
   T = 1
   LostInsert = FALSE
@@ -12,11 +12,11 @@ CONSTANTS
   FoldCancel = FALSE
   SpillCut = FALSE
   LateSnapshot = FALSE
-  LateSnapFetch = FALSE
-  SplitAppend = TRUE
+  LateSnapFetch = TRUE
+  SplitAppend = FALSE
   Gen = FALSE
   PrintCex = FALSE
 SYMMETRY Sym
 VIEW view
-INVARIANTS ReadYourWrites SetMatchesRef RememberedAbsence LogPinned
+INVARIANTS ReadYourWrites
 CHECK_DEADLOCK FALSE
